@@ -274,7 +274,7 @@ def fc_jobs(tier, seed, signs_quick=("affine", 2), signs_thorough=("affine", 2),
                 r2 = random.Random(seed * 1000003 + cls * 97 + n * 7 + len(conn))
                 base = [r2.randrange(6) for _ in range(n)]
                 if n == 4:
-                    wsize = 2 if tier == "quick" else 4
+                    wsize = 2 if tier == "quick" else 3
                 elif n == 5:
                     wsize = 1 if tier == "quick" else 2
                 else:
